@@ -33,7 +33,8 @@ class Arena:
             return f"sqrt_{i}"
         return f"n_{i}"
 
-    def cone(self, roots):
+    def cone(self, roots, stop=()):
+        """nodes reachable from `roots`; nodes in `stop` are included but not expanded (abstraction points)"""
         seen = set()
         stack = [r for r in roots if r >= 0]
         while stack:
@@ -41,6 +42,8 @@ class Arena:
             if i in seen:
                 continue
             seen.add(i)
+            if i in stop:
+                continue
             n = self.nodes[i]
             k = n[0]
             if k in ("+", "-", "*", "/"):
@@ -87,6 +90,99 @@ class Arena:
             self._shash[j] = hashlib.sha1(s.encode()).hexdigest()[:16]
             stack.pop()
         return self._shash[i]
+
+    def kids(self, i):
+        n = self.nodes[i]
+        k = n[0]
+        if k in ("+", "-", "*", "/"):
+            return [n[1], n[2]]
+        if k in ("neg", "sqrt", "abs"):
+            return [n[1]]
+        if k == "f":
+            return list(n[2])
+        return []
+
+    def nonneg_map(self):
+        """syntactic sign analysis: nodes that are non-negative for every value of the inputs (over the reals)"""
+        if getattr(self, "_nonneg", None) is None:
+            nn = [False] * len(self.nodes)
+            for i, n in enumerate(self.nodes):
+                k = n[0]
+                if k == "c":
+                    nn[i] = Fraction(n[1]) >= 0
+                elif k in ("abs", "sqrt"):
+                    nn[i] = True
+                elif k == "*":
+                    nn[i] = (n[1] == n[2]) or (nn[n[1]] and nn[n[2]])
+                elif k in ("+", "/"):
+                    nn[i] = nn[n[1]] and nn[n[2]]
+            self._nonneg = nn
+        return self._nonneg
+
+    def float_values(self, vars_):
+        """floating-point value of every node at the given input values (dict name -> 'p/q'); None where undefined"""
+        import math
+        val = [None] * len(self.nodes)
+        for i, n in enumerate(self.nodes):
+            k = n[0]
+            try:
+                if k == "c":
+                    val[i] = float(Fraction(n[1]))
+                elif k == "v":
+                    val[i] = float(Fraction(vars_[n[1]]))
+                elif k == "+":
+                    val[i] = val[n[1]] + val[n[2]]
+                elif k == "-":
+                    val[i] = val[n[1]] - val[n[2]]
+                elif k == "*":
+                    val[i] = val[n[1]] * val[n[2]]
+                elif k == "/":
+                    val[i] = val[n[1]] / val[n[2]]
+                elif k == "neg":
+                    val[i] = -val[n[1]]
+                elif k == "abs":
+                    val[i] = abs(val[n[1]])
+                elif k == "sqrt":
+                    val[i] = math.sqrt(val[n[1]]) if val[n[1]] >= 0 else None
+            except (TypeError, ZeroDivisionError, KeyError, OverflowError, ValueError):
+                val[i] = None
+        return val
+
+    def abstract_definitions(self, roots, free):
+        """declarations/definitions of the cone of `roots` cut at the nodes in `free`, which become unconstrained
+        constants (plus `>= 0` where the sign analysis shows it).  Every model of the full definitions is a model of
+        these, so `unsat` carries over to the real terms; `sat` means nothing."""
+        ids = sorted(self.cone(roots, stop=free))
+        nn = self.nonneg_map()
+        out = []
+        for i in ids:
+            n = self.nodes[i]
+            k = n[0]
+            if k == "c":
+                continue
+            if k == "v":
+                out.append(f"(declare-const {self.name(i)} Real)")
+            elif i in free:
+                out.append(f"(declare-const {self.name(i)} Real)")
+                if nn[i]:
+                    out.append(f"(assert (>= {self.name(i)} 0.0))")
+            elif k == "sqrt":
+                x = self.name(n[1])
+                out += [f"(declare-const sqrt_{i} Real)", f"(assert (>= sqrt_{i} 0.0))", f"(assert (= (* sqrt_{i} sqrt_{i}) {x}))"]
+            elif k == "f":
+                raise ToolFailure("abstract_definitions: uninterpreted functions not supported")
+            else:
+                if k in ("+", "-", "*", "/"):
+                    body = f"({k} {self.name(n[1])} {self.name(n[2])})"
+                elif k == "neg":
+                    body = f"(- {self.name(n[1])})"
+                elif k == "abs":
+                    x = self.name(n[1])
+                    body = f"(ite (>= {x} 0.0) {x} (- {x}))"
+                else:
+                    raise ToolFailure(f"unknown node kind {k}")
+                out.append(f"(define-fun n_{i} () Real {body})")
+        return out, ids
 
     def definitions(self, ids, constraints=None):
         """SMT-LIB declarations/definitions for the given (cone-closed, sorted) node ids.  If `constraints`
@@ -364,9 +460,10 @@ class FF:
     (numerator terms of divisors).  Equalities become polynomial identities; every atom is asserted
     non-zero (the divisor-non-zero obligations are discharged separately in the plain encoding)."""
 
-    def __init__(self, arena, ids):
+    def __init__(self, arena, ids, free=()):
         self.a = arena
         self.ids = ids
+        self.free = set(free)   # abstraction points: treated as variables
         self.num = {}      # node id -> smt term (name)
         self.den = {}      # node id -> dict atom -> exponent
         self.lines = []
@@ -419,6 +516,11 @@ class FF:
                 self.num[i], self.den[i] = q_smt(n[1]), {}
             elif k == "v":
                 L.append(f"(declare-const {A.name(i)} Real)")
+                self.num[i], self.den[i] = A.name(i), {}
+            elif i in self.free:
+                L.append(f"(declare-const {A.name(i)} Real)")
+                if A.nonneg_map()[i]:
+                    L.append(f"(assert (>= {A.name(i)} 0.0))")
                 self.num[i], self.den[i] = A.name(i), {}
             elif k == "sqrt":
                 x = n[1]
